@@ -1,4 +1,4 @@
 SPECIFICATION Spec
-CONSTANTS Bidders = {"u1", "u2"}  DepAmts = {10, 25}  Prems = {2, 5}  MaxDeps = 2  Fund = 60  Emit = FALSE
-INVARIANTS InvTotal InvNonNeg InvCustody
+CONSTANTS Bidders = {"u1", "u2"}  DepAmts = {10, 25}  Prems = {2, 5}  MaxDeps = 2  Fund = 60  Emit = FALSE  FillDebt = 25
+INVARIANTS InvBookClean InvTotal InvNonNeg InvCustody
 CHECK_DEADLOCK FALSE
